@@ -13,15 +13,15 @@ import (
 
 func init() { checks["C01"] = checkC01 }
 
-const c01Universe = 4000 // programs
+const c01Universe = 10000 // programs; from 4000 on the constructs that used to hit defects (tuple assignments with calls, composite destinations, constant conditions) are common
 const c01CellsPerProgram = 20
 
 func checkC01(r *core.Run) {
-	r.Rule = "universe = 4000 seed-indexed programs of 20 independent cells (functions of 15..35 generated statements over ints of three widths, float64, string, bool, structs, arrays, slices, maps, pointers, function values: nested if/else-if with init, 3-clause/condition/infinite for, range over slice/array/string/int/map/struct slices, switch with fallthrough and tagless, labelled break/continue, forward goto, closures capturing loop variables, multi-value and named results, recursion, compound assignment to fields/elements/pointees/map entries, multi-assignment, shadowing); every assignment is observed; verdict per cell = equality of its observation stream and way of ending between yaegi and the gc-built binary; non-trivial = the cell produced output on both sides"
+	r.Rule = "universe = 10000 seed-indexed programs (from program 4000 on, tuple assignments with calls, composite destinations and constant conditions are common) plus 20 hand-written regression cells; of 20 independent cells (functions of 15..35 generated statements over ints of three widths, float64, string, bool, structs, arrays, slices, maps, pointers, function values: nested if/else-if with init, 3-clause/condition/infinite for, range over slice/array/string/int/map/struct slices, switch with fallthrough and tagless, labelled break/continue, forward goto, closures capturing loop variables, multi-value and named results, recursion, compound assignment to fields/elements/pointees/map entries, multi-assignment, shadowing); every assignment is observed; verdict per cell = equality of its observation stream and way of ending between yaegi and the gc-built binary; non-trivial = the cell produced output on both sides"
 	r.Assume = []string{"gc build of the same source is the reference", "programs are deterministic and terminating by construction (bounded loops, guarded indices, no map-order dependence)"}
 	n := 120
 	if r.Thorough() {
-		n = 2000
+		n = 5000
 	}
 	if os.Getenv("VERIF_C01_ALL") != "" { // development: sweep the whole universe
 		n = c01Universe
